@@ -12,7 +12,7 @@ NA = {
  'C20': 'observational equivalence of containers with standard models over operation histories; a field co-update lint would be a brittle proxy',
 }
 TECH = {
- 'C01': 'static analysis: constant-table lint (sortedness under the search comparator, XSLT 1.0 vocabulary), producer/consumer switch exhaustiveness, finite-domain interpretation of the xsl:element namespace fix-up and of literal-result namespace processing; frozen protocol table of the dynamic context each instruction establishes (who-may-call on the scope stacks, CFG must-pass-through); parameter-binding rule',
+ 'C01': 'static analysis: constant-table lint (sortedness under the search comparator, XSLT 1.0 vocabulary), producer/consumer switch exhaustiveness, finite-domain interpretation of the xsl:element namespace fix-up and of literal-result namespace processing; frozen protocol table of the dynamic context each instruction establishes (who-may-call on the scope stacks, CFG must-pass-through); parameter-binding rule; interpretation of the attribute-value-template constructor on all short strings and of the variables stack on instruction-shaped scripts (scoping laws)',
  'C02': 'static analysis: keyword-table lint, op-code producer-subset-of-consumer over the call graph, finite-domain interpretation of the comparison dispatch and of the IEEE arithmetic primitives, grammar-recursion rule, position-cache coherence over the CFG; interpretation of substring(), of the node-set comparison kernels and of the string functions together with the DOMStringHelper routines they call, on all small inputs; interpretation of the tokenizer on all short strings and of the recursive-descent expression parser on bounded token sequences, against a reference XPath 1.0 lexer and recognizer; interpretation of the string-to-number validation on all short strings and of the twelve axis functions on all context nodes of small abstract trees; end-to-end interpretation of location paths (compile to a real op-code map, XPath::step, literal position predicates) against a reference evaluator',
  'C03': 'static analysis: interprocedural exception-escape fixpoint, sibling handler agreement, format-string buffer bounds, guarded float-to-int casts and integer divisions, CFG must-pass-through rules; emptied-by-reset rule for members holding handles into the per-transformation object factory',
  'C04': 'static analysis: constant-table lint + finite-domain interpretation of predicate ASTs, of the escape functions and of the CDATA sectioning code, CFG guard accounting for buffer stores, template-instantiation consistency; interpretation of the output stream (buffer, flush, transcoding retry loop) against a model transcoder on all bounded write sequences; interpretation of the UTF-16 byte-order choice for both byte orders; interpretation of the comment / processing-instruction content fix-ups on all short strings',
